@@ -495,7 +495,11 @@ func tickSequence(r *vh.Run, i int) {
 		defer vh.RemoveAll(root)
 	}
 	const G = 300 * time.Millisecond
-	srv := vh.New(vh.Conf(kind, root, vh.Policy{Untagged: true, Dangling: true, WithSubj: true, Grace: G}))
+	startKind := kind
+	if variant == "restart" && kind == vh.MemDir {
+		startKind = vh.Dir // the directory is written by a directory store; the memory store is opened over it afterwards
+	}
+	srv := vh.New(vh.Conf(startKind, root, vh.Policy{Untagged: true, Dangling: true, WithSubj: true, Grace: G}))
 	defer func() { _ = srv.Close() }()
 	wit := map[string]any{"trial": i, "store": kind.String(), "variant": variant, "grace": G.String()}
 	prev := time.Now().Add(-time.Second)
@@ -574,7 +578,7 @@ func tickSequence(r *vh.Run, i int) {
 		// (d) the registry is stopped right after the upload (the blob is young: the collection in Close keeps it) and
 		// started again on the same directory; only the tag is read.  The passes of the new process have to come back
 		// to the repository once the blob's grace period is over
-		if kind != vh.Dir {
+		if kind == vh.Mem {
 			break // nothing of a memory store survives its process
 		}
 		_ = srv.Close()
